@@ -460,6 +460,68 @@ pub fn stress(ctx: &Ctx) -> SubReport {
     rep
 }
 
+/// A method that lends its answer (`&u32` made with `make_ref` by the answer function), called by many
+/// real threads through ONE shared `&Unimock`: every call must get the value made for it.
+#[unimock::unimock(api=EchoMock)]
+pub trait Echo {
+    fn echo(&self, x: u32) -> &u32;
+}
+
+fn echo_answer() -> std::sync::Arc<dyn for<'u> Fn(&'u Unimock, u32) -> &'u u32 + Send + Sync> {
+    fn coerce<F>(f: F) -> std::sync::Arc<dyn for<'u> Fn(&'u Unimock, u32) -> &'u u32 + Send + Sync>
+    where
+        F: for<'u> Fn(&'u Unimock, u32) -> &'u u32 + Send + Sync + 'static,
+    {
+        std::sync::Arc::new(f)
+    }
+    coerce(|u: &Unimock, x: u32| u.make_ref(x))
+}
+
+pub fn lend_stress(ctx: &Ctx) -> SubReport {
+    use unimock::MockFn;
+    let mut rep = SubReport::new("stress-lent-answers");
+    let rounds = ctx.tier.pick(40, 800);
+    for round in 0..rounds {
+        let threads = 16u32;
+        let per = 120u32;
+        let u = Unimock::new(EchoMock::echo.each_call(&|m| m.func(|_, _| true)).answers_arc(echo_answer())).no_verify_in_drop();
+        let shared = &u;
+        let barrier = std::sync::Barrier::new(threads as usize);
+        let bad: Vec<String> = std::thread::scope(|s| {
+            let hs: Vec<_> = (0..threads)
+                .map(|t| {
+                    let b = &barrier;
+                    s.spawn(move || {
+                        b.wait();
+                        let mut held: Vec<(u32, &u32)> = vec![];
+                        for k in 0..per {
+                            let x = round as u32 * 1_000_000 + t * 1000 + k;
+                            let r = shared.echo(x);
+                            if *r != x {
+                                return Some(format!("thread {t} call {k}: echo({x}) lent a reference to {}", *r));
+                            }
+                            held.push((x, r));
+                        }
+                        held.iter().find(|(x, r)| **r != *x).map(|(x, r)| format!("thread {t}: the reference lent for {x} now reads {}", **r))
+                    })
+                })
+                .collect();
+            hs.into_iter().filter_map(|h| h.join().unwrap_or_else(|_| Some("HARNESS: stress thread panicked".into()))).collect()
+        });
+        let case = serde_json::json!({"round": round, "threads": threads, "calls_per_thread": per});
+        if let Some(reason) = bad.into_iter().next() {
+            if reason.starts_with("HARNESS") {
+                rep.inconclusive = Some(reason);
+            } else {
+                rep.fail(&case, format!("16 threads calling a make_ref-answered method through one shared &Unimock: {reason}"));
+            }
+            return rep;
+        }
+        rep.record(&case, &CaseInfo::new(true).class("shared-&Unimock-lent-answers"));
+    }
+    rep
+}
+
 fn stress_once(case: &RaceCase) -> Result<(), String> {
     let cl = clauses(case);
     let original = new_mock(false, &cl).map_err(|e| format!("HARNESS: construct {e}"))?;
@@ -552,10 +614,20 @@ pub fn run(ctx: &Ctx) -> Verdict {
     v.subs.push(super::replay_corpus(ctx));
     v.subs.extend(run_kinds(ctx, &[(2, 1), (2, 2), (3, 1), (2, 3)], &[Kind::UnorderedChain, Kind::Ordered, Kind::Mixed, Kind::OrderedRejecting]));
     v.subs.push(stress(ctx));
+    v.subs.push(lend_stress(ctx));
     v
 }
 
 pub fn replay(_sub: &str, case: Value) -> Result<(), String> {
+    if _sub == "stress-lent-answers" {
+        // real-thread stress: re-run the sub-check (a quick-tier run of it)
+        let ctx = Ctx::new("C10", vcore::Tier::Quick);
+        let rep = lend_stress(&ctx);
+        return match rep.failure {
+            Some(f) => Err(f.reason),
+            None => Ok(()),
+        };
+    }
     let c: RaceCase = serde_json::from_value(case).map_err(|e| format!("HARNESS: bad case: {e}"))?;
     if c.threads >= 16 {
         return stress_once(&c);
